@@ -25,6 +25,10 @@ func init() {
 		Assumptions: []string{"path/filepath.Match implements the documented glob syntax", "ast.NewCommentMap attaches a directive to the node on the following line"},
 		Run:         runC10,
 		Mutants: []Mutant{
+			{Name: "directives-only-at-the-start-of-a-group", File: "analysis/lint/lint.go", Rule: "R10.6", KeyPart: "ParseDirectives::looks-at-every-comment-of-a-group",
+				Old: "\t\tcm := ast.NewCommentMap(fset, f, f.Comments)\n", New: "\t\tany := false\n\t\tfor _, cg := range f.Comments {\n\t\t\tif strings.HasPrefix(cg.List[0].Text, \"//lint:\") {\n\t\t\t\tany = true\n\t\t\t}\n\t\t}\n\t\tif !any {\n\t\t\tcontinue\n\t\t}\n\t\tcm := ast.NewCommentMap(fset, f, f.Comments)\n"},
+			{Name: "already-ignored-problems-not-matched-again", File: "lintcmd/lint.go", Rule: "R10.6", KeyPart: "filterIgnored::every-directive-tested-against-every-problem",
+				Old: "\t\t\tdiag := &diagnostics[i]\n\t\t\tif ig.match(*diag) {", New: "\t\t\tdiag := &diagnostics[i]\n\t\t\tif diag.Severity == severityIgnored {\n\t\t\t\tcontinue\n\t\t\t}\n\t\t\tif ig.match(*diag) {"},
 			{Name: "line-ignore-any-line", File: "lintcmd/lint.go", Rule: "R10.1", KeyPart: "lineIgnore).match",
 				Old: "\tif pos.Filename != li.File || pos.Line != li.Line {\n\t\treturn false\n\t}", New: "\tif pos.Filename != li.File {\n\t\treturn false\n\t}"},
 			{Name: "line-ignore-adjacent-line", File: "lintcmd/lint.go", Rule: "R10.1", KeyPart: "lineIgnore).match",
@@ -543,9 +547,87 @@ func runC10(c *Ctx) {
 		})
 		c.Check(FuncKey(entry)+"::same-position-function-for-directive-and-object", entry.Pos(), len(flags) == 1, "directive node and object positions are computed with the same PositionFor mode (%v)", SortedKeys(flags))
 	})
+
+	// R10.6: a directive may be ANY line of a comment group (it is commonly
+	// written right below an explanatory comment or a doc comment). Code that
+	// finds directives — ParseDirectives and whatever pre-filter it uses —
+	// must look at every comment of a group: reading a group's List at a fixed
+	// position, or only its Text(), misses directives that are not first.
+	// Separately, filterIgnored must test every directive against every
+	// problem: a line directive's Matched flag, which decides whether the
+	// directive itself is reported as useless, is set by that test, so
+	// skipping it depending on what other directives already did makes the
+	// outcome depend on the (map-iteration) order of the directives.
+	c.Rule("R10.6", func() {
+		c.Floor("R10.6", 2)
+		pd := c.Func("analysis/lint", "ParseDirectives")
+		n := 0
+		bad := ""
+		var badPos = pd.Pos()
+		for _, f := range DeepFuncs(pd, 2) {
+			if !strings.HasPrefix(FuncPkgPath(f), Module) {
+				continue
+			}
+			Instrs(f, true, func(in ssa.Instruction) {
+				ia, ok := in.(*ssa.IndexAddr)
+				if !ok || !AddrFrom(ia.X, IsFieldOf("ast.CommentGroup", "List")) {
+					return
+				}
+				n++
+				if _, isConst := ConstInt(ia.Index); isConst {
+					bad, badPos = "reads CommentGroup.List at a fixed index in "+f.String(), ia.Pos()
+				}
+			})
+		}
+		c.Check(FuncKey(pd)+"::looks-at-every-comment-of-a-group", badPos, n > 0 && bad == "", "directives are recognised by iterating over all comments of a group: %s", bad)
+
+		directivePairObligations(c)
+	})
 }
 
 func isPlainLoad(v ssa.Value) bool {
 	u, ok := v.(*ssa.UnOp)
 	return ok && u.Op == token.MUL
+}
+
+// directivePairObligations: filterIgnored tests every directive against every
+// problem (shared by C10 R10.6 and C06 R6.7).
+func directivePairObligations(c *Ctx) {
+	fi := c.Func("lintcmd", "filterIgnored")
+	var matches []ssa.Instruction
+	for _, ci := range Calls(fi, false) {
+		if ci.Common().IsInvoke() && ci.Common().Method.Name() == "match" {
+			matches = append(matches, ci)
+		}
+	}
+	if len(matches) == 0 {
+		c.Undecided("filterIgnored no longer calls ignore.match")
+	}
+	// the problem under test: an element address of the diagnostics parameter
+	okPairs, why := true, ""
+	nElems := 0
+	Instrs(fi, false, func(in ssa.Instruction) {
+		ia, ok := in.(*ssa.IndexAddr)
+		if !ok || !DerivesLocal(ia.X, func(v ssa.Value) bool { p, ok := v.(*ssa.Parameter); return ok && p == fi.Params[0] }) {
+			return
+		}
+		nElems++
+		t, path := PathAvoiding(fi, ia, func(x ssa.Instruction) bool {
+			if _, isRet := x.(*ssa.Return); isRet {
+				return true
+			}
+			return x == ssa.Instruction(ia)
+		}, func(x ssa.Instruction) bool {
+			for _, m := range matches {
+				if m == x {
+					return true
+				}
+			}
+			return false
+		}, nil)
+		if t != nil {
+			okPairs, why = false, PathString(fi, path)
+		}
+	})
+	c.Check(FuncKey(fi)+"::every-directive-tested-against-every-problem", fi.Pos(), okPairs && nElems > 0, "every (directive, problem) pair goes through match — its side effect (lineIgnore.Matched) decides whether the directive is reported as matching nothing, so no pair may be skipped because of what another directive did; path that skips the test: %s", why)
 }
